@@ -45,9 +45,14 @@ PROPS = {
         "stages": [native("main", timeout=300, timeout_thorough=1500),
                    native("main-dev", engine="dev", rv_stage="main", tiers=["thorough"], timeout_thorough=1500)],
     },
+    "C06": {
+        "level": "fault_enumeration",
+        "stages": [native("main", timeout=400, timeout_thorough=1500),
+                   native("main-dev", engine="dev", rv_stage="main", tiers=["thorough"], timeout_thorough=1500)],
+    },
     "C07": {
         "level": "exploration",
-        "stages": both("dispatch") + [miri("miri-dispatch", scale=0.002)],
+        "stages": both("dispatch") + [miri("miri-dispatch", scale=0.0002)],
     },
     "C08": {
         "level": "exploration",
